@@ -32,6 +32,8 @@ type sblob struct {
 	subs    []int // mergeSets
 	entries int
 	extra   []int
+	ctype   string // odd: the camliType it has
+	field   string // odd: the foreign link field it carries
 }
 
 type universe struct {
@@ -173,6 +175,8 @@ func (b *sblob) op() string {
 		return head + strconv.Itoa(b.entries)
 	case "set":
 		return head + ids(b.refs) + " " + ids(b.subs)
+	case "odd":
+		return head + b.ctype + " " + b.field + " " + ids(b.refs)
 	default:
 		return head + ids(b.refs)
 	}
@@ -722,6 +726,73 @@ func (g *gen) enumerateFrom(shares []int) {
 		g.request("GET", true, []int{s})
 	}
 	g.enumerate(all, 2, func(c []int) { g.request("GET", false, c) })
+}
+
+// oddCase: for one link field, blobs of EVERY camliType that does not own that field carry it with the
+// ref of a private blob. Each is the direct target of its own transitive share, a member of a static
+// set behind a shared directory (so it is reached through genuine links), and is then tried as a hop
+// to the private blob: the link relation is per type, every such hop must be refused.
+func (g *gen) oddCase(field string) {
+	r := g.r
+	r.Case("odd-blobs field=" + field)
+	g.w, g.u = newWorld(), newUniverse()
+	if g.w.err != "" {
+		r.Fail("harness-setup-failed", g.w.err, "", "", nil)
+		return
+	}
+	g.put(&sblob{kind: "raw"})
+	secret := g.put(&sblob{kind: "raw"}).id
+	secret2 := g.put(&sblob{kind: "raw"}).id
+	pfile := g.put(&sblob{kind: "file", refs: []int{secret}}).id // private: nothing shares it
+	type odd struct{ id, share, priv int }
+	var odds []odd
+	for i, ct := range oddTypes {
+		if genuineField(ct, field) || (ct == "claim-delete" && field == "target") {
+			continue
+		}
+		refs := []int{secret}
+		switch i % 3 {
+		case 1:
+			refs = []int{pfile}
+		case 2:
+			if field == "members" || field == "mergeSets" || strings.HasPrefix(field, "parts-") {
+				refs = []int{secret2, secret}
+			}
+		}
+		o := g.put(&sblob{kind: "odd", ctype: ct, field: field, refs: refs}).id
+		r.Hit("odd-type:" + ct)
+		r.Hit("odd-field:" + field)
+		odds = append(odds, odd{id: o, priv: refs[len(refs)-1]})
+	}
+	var members []int
+	for i := range odds {
+		odds[i].share = g.put(&sblob{kind: "share", target: odds[i].id, trans: true, exp: -1}).id
+		members = append(members, odds[i].id)
+	}
+	set := g.put(&sblob{kind: "set", refs: members}).id
+	dir := g.put(&sblob{kind: "dir", entries: set}).id
+	shSet := g.put(&sblob{kind: "share", target: set, trans: true, exp: -1}).id
+	shDir := g.put(&sblob{kind: "share", target: dir, trans: true, exp: -1}).id
+	if len(r.Res.Samples) < 6 && field == "parts-blobRef" {
+		r.Sample(map[string]any{"case": r.Res.Cases, "odd-blob store (excerpt)": g.storeOps()[:12]})
+	}
+	for _, o := range odds {
+		for _, x := range g.u.blobs[o.id].refs {
+			g.request("GET", false, []int{o.share, o.id})               // the odd blob itself: shared
+			g.request("GET", false, []int{o.share, o.id, x})            // length 3: hop out of it
+			g.request("GET", true, []int{o.share, o.id, x})             // … assembled
+			g.request("HEAD", false, []int{o.share, o.id, x})           //
+			g.request("GET", false, []int{o.share, x})                  // length 2: not the target
+			g.request("GET", false, []int{shSet, set, o.id})            // reached through a genuine link
+			g.request("GET", false, []int{shSet, set, o.id, x})         // length 4
+			g.request("GET", false, []int{shDir, dir, set, o.id, x})    // length 5
+			g.request("GET", false, []int{o.share, o.id, x, secret})    // and onwards (x may be the private file)
+			g.request("GET", false, []int{shSet, set, o.id, x, secret}) //
+			g.request("GET", false, []int{o.id})                        // not a share
+			g.request("GET", false, []int{o.id, x})                     //
+			r.Hit("mech:odd-typed-hop-tried")
+		}
+	}
 }
 
 // expiryCase: shares whose expiry lies two seconds ahead are used – the claim, the target, every
@@ -1412,7 +1483,7 @@ func serverSpecs(r *hk.Run) []string {
 
 // Run is the generator.
 func Run(r *hk.Run) {
-	r.Res.Rule = "share handler: per generated store (public key, raw leaves, bytes, file, static sets incl. builder-made mergeSets, directory, a claim that mentions a ref, 2-3 share claims: transitive or not, live/expired/never expiring, of directories, files, sets, shares, phantoms, searches) EVERY chain of length 1..L over all stored blobs plus one unstored ref is requested with GET (L=4 quick, 5 thorough), every chain up to 3 with HEAD and assemble=1, every chain up to 2 with all 9 methods, malformed refs at every position, every link-following walk up to 8 and its one-element mutations; then histories of signed delete claims: one, two and three delete claims on one share, undone in either order (older only / newer only / both), undoers undone, a deleter with two undoers, a deleted target share; after every step all chains up to 2 over everything, all chains up to 3 from every share and all walks are re-requested; then blobs are REMOVED from the storage between requests (a via blob, then live share claims that were just used) and everything from the shares is re-requested. expiry cases (2 quick, 4 thorough): shares expiring 2-3 s ahead are used (claim, target, every descendant, assemble, all chains up to 2) and used again on the same handler after real time has passed their expiry (now op, real sleep), next to never-expiring and long-expired controls. servers: serverinit.Load+InstallHandlers of generated high- and low-level configurations (storage x index x auth mode x share prefix x hand-edited prefixes incl. internal ones); every prefix x 9 methods x 9-22 sub-paths without credentials, then without credentials in 17 request shapes (websocket upgrade with absent/empty/wrong authtoken, blank/garbage/empty/wrong Basic, Token, Bearer Authorization, forwarded-for/loopback claims, cookies) x every sub-path (GET) and x every method (first sub-paths), discovery and every fixed /debug endpoint under every shape, GET/HEAD with valid credentials; each guarded prefix, discovery and /debug endpoint is also requested without credentials (5 shapes) IMMEDIATELY AFTER a credentialed request from the same remote address (after-auth); the shapes are first sent to servers in freshly started child processes (no credential ever presented, auth.Token() never asked for; the after-auth interleaving follows there too). distinct = distinct (store, request) whose chain starts at a stored share claim, plus distinct (configuration, prefix, method, sub-path, shape)"
+	r.Res.Rule = "share handler: per generated store (public key, raw leaves, bytes, file, static sets incl. builder-made mergeSets, directory, a claim that mentions a ref, 2-3 share claims: transitive or not, live/expired/never expiring, of directories, files, sets, shares, phantoms, searches) EVERY chain of length 1..L over all stored blobs plus one unstored ref is requested with GET (L=4 quick, 5 thorough), every chain up to 3 with HEAD and assemble=1, every chain up to 2 with all 9 methods, malformed refs at every position, every link-following walk up to 8 and its one-element mutations; then histories of signed delete claims: one, two and three delete claims on one share, undone in either order (older only / newer only / both), undoers undone, a deleter with two undoers, a deleted target share; after every step all chains up to 2 over everything, all chains up to 3 from every share and all walks are re-requested; then blobs are REMOVED from the storage between requests (a via blob, then live share claims that were just used) and everything from the shares is re-requested. odd-blob cases (9, one per link field parts/blobRef, parts/bytesRef, both, entries, members, mergeSets, target, camliContent value, permaNode): a blob of EVERY camliType that does not own the field (permanode, claims of 7 claim types signed and unsigned, symlink, fifo, socket, keep, inode, share, unknown type, no type, JSON array, and file/bytes/directory/static-set carrying each other's fields) carries it with the ref of a private blob or private file; each is the direct target of its own transitive share and a member of a shared static set/directory, and is tried as a hop (chains of length 2-5, GET/HEAD/assemble). expiry cases (2 quick, 4 thorough): shares expiring 2-3 s ahead are used (claim, target, every descendant, assemble, all chains up to 2) and used again on the same handler after real time has passed their expiry (now op, real sleep), next to never-expiring and long-expired controls. servers: serverinit.Load+InstallHandlers of generated high- and low-level configurations (storage x index x auth mode x share prefix x hand-edited prefixes incl. internal ones); every prefix x 9 methods x 9-22 sub-paths without credentials, then without credentials in 17 request shapes (websocket upgrade with absent/empty/wrong authtoken, blank/garbage/empty/wrong Basic, Token, Bearer Authorization, forwarded-for/loopback claims, cookies) x every sub-path (GET) and x every method (first sub-paths), discovery and every fixed /debug endpoint under every shape, GET/HEAD with valid credentials; each guarded prefix, discovery and /debug endpoint is also requested without credentials (5 shapes) IMMEDIATELY AFTER a credentialed request from the same remote address (after-auth); the shapes are first sent to servers in freshly started child processes (no credential ever presented, auth.Token() never asked for; the after-auth interleaving follows there too). distinct = distinct (store, request) whose chain starts at a stored share claim, plus distinct (configuration, prefix, method, sub-path, shape)"
 	g := &gen{r: r}
 	if restartedProcess {
 		// perkeep re-executed this binary: a request that must be refused reached the status handler's
@@ -1437,6 +1508,9 @@ func Run(r *hk.Run) {
 	}
 	for n := 0; n < stores; n++ {
 		g.shareCase(n+int(r.Res.Seed)*stores, maxLen)
+	}
+	for _, f := range oddFields {
+		g.oddCase(f)
 	}
 	nExp := 2
 	if r.Thorough() {
